@@ -27,11 +27,45 @@ pub fn run(ctx: &mut Ctx) {
     for case in ctx.cases("models", 600, true) {
         ctx.run_case("models", case, model_case);
     }
+    // constructing a CNF from the library's own text format "(-1 || 0 || 2) && (1)"
+    // (0-based labels, negation written with a leading '-'): the constructed formula has the
+    // models of the text
+    for case in ctx.cases("from_string", 300, true) {
+        ctx.run_case("from_string", case, from_string_case);
+    }
     for case in ctx.cases("literals", 200, true) {
         ctx.run_case("literals", case, literal_case);
     }
     for case in ctx.cases("hasher", 900, true) {
         ctx.run_case("hasher", case, hasher_case);
+    }
+}
+
+fn from_string_case(ctx: &mut Ctx, rng: &mut Rng) {
+    let n = rng.range(1, 7);
+    let m = rng.range(1, 6);
+    let mut cl: Clauses = Vec::new();
+    for _ in 0..m {
+        let w = rng.range(1, 4);
+        cl.push((0..w).map(|_| (rng.below(n), rng.bool())).collect());
+    }
+    let text = cl
+        .iter()
+        .map(|c| format!("({})", c.iter().map(|(v, p)| format!("{}{}", if *p { "" } else { "-" }, v)).collect::<Vec<_>>().join(if rng.bool() { " || " } else { "||" })))
+        .collect::<Vec<_>>()
+        .join(" && ");
+    let nv = clauses_num_vars(&cl);
+    let exp = clauses_tt(&cl, nv);
+    let cnf = Cnf::from_string(&text);
+    ctx.count("cnfs_from_string", 1);
+    ctx.case_eval(if exp.is_trivial() { None } else { Some(crate::rng::hash_str(&text)) });
+    let got = Tt::from_fn(nv, |a| {
+        let asg: Vec<bool> = (0..usize::max(nv, cnf.num_vars())).map(|i| (a >> i) & 1 == 1).collect();
+        cnf.clauses().iter().all(|c| c.iter().any(|l| asg[l.label().value_usize()] == l.polarity()))
+    });
+    if cnf.num_vars() > nv || got != exp {
+        ctx.violation("cnf.from_string", "the CNF constructed from the text format does not have the models of the text",
+            json!({"text": text, "observed": got.hex(), "expected": exp.hex(), "num_vars": cnf.num_vars()}));
     }
 }
 
